@@ -304,6 +304,61 @@ impl Scenario for Chunking {
         let case_hash = fnv(case.to_string().as_bytes());
         let (src_stores, src_infos, _) = sources_to_stores(&c.sources);
         let mut r = Rng::new(case_hash);
+        // ---- the caller's split of one LARGE incompressible write into a compressing entry (one case in eight):
+        // in one piece, as a gathered write of two large slices, in 4 KiB pieces - all three must decode to the
+        // bytes written. (The encoders take such a buffer only in part per call; the program cases below are too
+        // small for that, and enumerating sink schedules over 200 KB would take minutes.)
+        if case_hash % 8 == 0 && c.only.is_none() {
+            let method = [zip::CompressionMethod::Deflated, zip::CompressionMethod::Zstd, zip::CompressionMethod::Bzip2, zip::CompressionMethod::Deflated][(case_hash >> 8) as usize % 4];
+            let level = if method == zip::CompressionMethod::Bzip2 { Some(1) } else { None };
+            let data = Rng::new(case_hash ^ 0xB16).bytes(150_000 + (case_hash >> 16) as usize % 120_000);
+            for variant in 0..3u8 {
+                let st = shared_empty();
+                let res = guard(|| -> Result<Vec<u8>, String> {
+                    use std::io::{Read, Write};
+                    let mut w = zip::ZipWriter::new(SimDisk::new(st.clone(), Policy::Pure));
+                    w.start_file("big", zip::write::FileOptions::default().compression_method(method).compression_level(level).last_modified_time(zip::DateTime::default())).map_err(|e| zerr_pub(&e))?;
+                    match variant {
+                        0 => w.write_all(&data).map_err(|e| e.to_string())?,
+                        1 => {
+                            let mut off = 0usize;
+                            while off < data.len() {
+                                let rest = &data[off..];
+                                let (a, b) = rest.split_at(rest.len() * 2 / 3 + 1);
+                                let n = w.write_vectored(&[std::io::IoSlice::new(a), std::io::IoSlice::new(&[]), std::io::IoSlice::new(b)]).map_err(|e| e.to_string())?;
+                                if n == 0 {
+                                    return Err("write_vectored returned Ok(0)".into());
+                                }
+                                off += n;
+                            }
+                        }
+                        _ => {
+                            for piece in data.chunks(4096) {
+                                w.write_all(piece).map_err(|e| e.to_string())?;
+                                let _ = w.write(&[]);
+                            }
+                        }
+                    }
+                    w.finish().map_err(|e| zerr_pub(&e))?;
+                    let mut ar = ZipArchive::new(SimDisk::new(st.clone(), Policy::Pure)).map_err(|e| zerr_pub(&e))?;
+                    let mut f = ar.by_index(0).map_err(|e| zerr_pub(&e))?;
+                    let mut out = vec![];
+                    f.read_to_end(&mut out).map_err(|e| e.to_string())?;
+                    Ok(out)
+                });
+                ctx.sub_evals += 1;
+                let how = ["one write_all", "gathered writes of two large slices", "4 KiB pieces with zero-length writes in between"][variant as usize];
+                match res {
+                    Err(v) => return v,
+                    Ok(Err(e)) => return viol("C09/caller-write-split", format!("{} bytes of incompressible data written to a {method:?} entry as {how}: {e}", data.len())),
+                    Ok(Ok(out)) if out != data => {
+                        let at = out.iter().zip(data.iter()).position(|(a, b)| a != b).unwrap_or(out.len().min(data.len()));
+                        return viol("C09/caller-write-split", format!("{} bytes of incompressible data written to a {method:?} entry as {how} decode to {} bytes, first difference at {at}", data.len(), out.len()));
+                    }
+                    _ => ctx.probe("large_incompressible_write_split_three_ways"),
+                }
+            }
+        }
         // ---- reference execution
         let (store0, passwords, ops): (Shared, Vec<Option<Vec<u8>>>, Option<Vec<Op>>) = match &c.src {
             Source::Prog(ops) => {
